@@ -21,6 +21,7 @@ import os
 import random
 import shutil
 import tempfile
+import time
 
 from vlib import par
 from vlib.session import Session, unjson
@@ -232,7 +233,15 @@ def disk_case(case, sess: Session):
         sess.count("delta_files_written")
         raw = open(p_full, "rb").read()
         if cond == "present":
-            pass
+            # file times are not part of the format: the baseline may be younger than the delta (re-written, restored, copied)
+            tw = case.get("touch")
+            if tw == "baseline-newer":
+                os.utime(p_full, (time.time() + 500, time.time() + 500))
+            elif tw == "delta-older":
+                os.utime(p_delta, (1_000_000_000, 1_000_000_000))
+            elif tw == "both-epoch":
+                os.utime(p_full, (0, 0))
+                os.utime(p_delta, (0, 0))
         elif cond == "deleted_keep_sidecar":
             os.unlink(p_full)
         elif cond == "deleted_all":
@@ -345,7 +354,7 @@ def _disk_chunk(args):
             b = rand_obj(rng)
         c = mutate(rng, b) if b else rand_obj(rng)
         cond = BASE_CONDS[(i + idx) % len(BASE_CONDS)] if i % 3 else "present"
-        case = {"kind": "disk", "base": b, "cur": c, "cond": cond, "cut": rng.randint(0, 10 ** 6), "next": mutate(rng, c) if rng.random() < 0.6 else None}
+        case = {"kind": "disk", "base": b, "cur": c, "cond": cond, "cut": rng.randint(0, 10 ** 6), "next": mutate(rng, c) if rng.random() < 0.6 else None, "touch": rng.choice([None, None, "baseline-newer", "delta-older", "both-epoch"])}
         if not b:
             sess.count("disk_cases_with_empty_baseline_payload")
         disk_case(case, sess)
